@@ -5,6 +5,7 @@ package main
 // VIOLATION / KNOWN-FINDING lines, set the exit code.
 
 import (
+	"sync/atomic"
 	"bytes"
 	"encoding/json"
 	"flag"
@@ -376,6 +377,8 @@ func cmdCheck(args []string) {
 	}
 	b := bounds{MaxPaths: 4000, MaxSteps: 30_000_000, TimeoutMs: 10000, Workers: *workers, MaxSeconds: 240}
 	if *tier == "thorough" {
+		// every verdict of the variable-bounds shortcut (interval.go) is compared with the solver's
+		checkIntervals = true
 		b = bounds{MaxPaths: 100000, MaxSteps: 100_000_000, TimeoutMs: 60000, Workers: *workers, MaxSeconds: 3000}
 	}
 	ex, err := newExplorer(w, b, *solverName)
@@ -405,6 +408,9 @@ func cmdCheck(args []string) {
 		fail(fmt.Errorf("no harness serves %s", id))
 	}
 
+	if n := atomic.LoadInt64(&intervalMismatches); n > 0 {
+		fail(fmt.Errorf("the variable-bounds shortcut disagreed with the solver on %d questions (engine defect, nothing is reported)", n))
+	}
 	// thorough tier: a sample of the harnesses is decided again with a second solver (z3 5.x); the
 	// path statistics must agree. A disagreement means the encoding relies on something one of the
 	// solvers gets wrong: machinery failure, nothing is reported.
@@ -476,6 +482,7 @@ func cmdCheck(args []string) {
 	var hsum []interface{}
 	var allFails []*failure
 	vacuous := []string{}
+	var budgetHits []string
 	var witnessJobs []*harnessResult
 	for _, r := range results {
 		totals["paths"] += r.Paths
@@ -505,6 +512,9 @@ func cmdCheck(args []string) {
 		sv.Unknown += r.Solver.Unknown
 		sv.Errors += r.Solver.Errors
 		sv.Seconds += r.Solver.Seconds
+		if r.BudgetHit {
+			budgetHits = append(budgetHits, r.Name)
+		}
 		hsum = append(hsum, map[string]interface{}{"harness": r.Name, "paths": r.Paths, "path_end_status": r.Status, "decisions": r.Decisions, "obligations": r.Obligations, "discharged": r.Discharged, "solver_queries": r.Solver.Queries, "budget_hit": r.BudgetHit})
 		// vacuity guard: every harness must reach its end on some path, and the witness must replay natively
 		if _, ok := r.Witness["end"]; !ok {
@@ -706,7 +716,9 @@ func cmdCheck(args []string) {
 		"solver":                        map[string]interface{}{"name": *solverName, "stats": sv},
 		"notes":                         allNotes,
 		"harness_files_left_out":        droppedList,
+		"path_budget_hit_in":            budgetHits,
 		"cross_solver_recheck":          cross,
+		"bounds_shortcut_crosschecked":  atomic.LoadInt64(&intervalChecked),
 		"native_replays":                replays,
 		"explanation":                   "bounded symbolic execution of the real SSA of /repo (rebuilt this run) with an SMT solver deciding every branch and obligation; see DESIGN.md",
 		"assumption_validation":         map[string]interface{}{"what": "A-PARSE/A-LEX/A-BOUNDARY: concrete layouts (VERIF_SEED) parsed by the real parser and compared with the stretch map", "seeds": stSeeds, "layouts_per_seed": stRounds, "positions_compared": stChecked, "mismatches": stMism},
@@ -722,6 +734,10 @@ func cmdCheck(args []string) {
 	os.MkdirAll(evDir, 0o755)
 	if err := writeJSON(filepath.Join(evDir, id+".json"), ev); err != nil {
 		fail(err)
+	}
+	if len(budgetHits) > 0 {
+		// the claim of these harnesses is reduced to the paths explored within the budget
+		fmt.Printf("NOTE path budget hit in %d harnesses (their claim covers the explored paths only): %s\n", len(budgetHits), strings.Join(firstN(budgetHits, 6), " "))
 	}
 	fmt.Printf("property=%s tier=%s harnesses=%d paths=%d obligations=%d discharged=%d undischarged=%d unsupported-kinds=%d candidates=%d violations=%d known=%d unconfirmed=%d wall=%.1fs\n",
 		id, *tier, len(results), totals["paths"], totals["obligations"], totals["discharged"], totals["undischarged"], len(allUnsup), totals["candidates"], len(violations), len(seenK), len(unconfirmed), time.Since(t0).Seconds())
@@ -780,4 +796,11 @@ func cmdReplay(args []string) {
 		fmt.Printf("VIOLATION property=%s replay=%s\n", rf.Property, args[0])
 		os.Exit(1)
 	}
+}
+
+func firstN(xs []string, n int) []string {
+	if len(xs) > n {
+		return xs[:n]
+	}
+	return xs
 }
